@@ -8,13 +8,18 @@
                                                           still holds non-zero state bytes)
     req <i> <netfn> <lun> <cmd> <hex>    -> <hex>         one IPMI request; reply = completion code :: data
     digest <i>                           -> <hash>
+    fanrev <i> <fru>                     -> R3.0 | R1.0/R2.0      command set of that fan tray
     dump <i>                             -> Repr of the normalised state
     spec <i> <op> <args…>                -> <digest-after> <result>     oracle: Spec.run, instance untouched
     specdump <i> <op> <args…>            -> Repr of the state the oracle expects
     model <i> <variant> <op> <args…>     -> <digest-after> <result | error tag>      Model.Api, instance untouched;
                                             variant: letters for the operations modelled AS SHIPPED (Model.Api.Variant):
                                             l LED decode, p port state, r LAN revision-only, b rollback status,
-                                            u sensor states while unavailable; - = all as intended
+                                            u sensor states while unavailable, d HPM description through raw_unicode_escape,
+                                            f fourth byte of Set Fan Level, o OEM link types, s reserved state bit 15;
+                                            - = all as intended
+    spec also answers the composite HPM queries that have no single-exchange model (exercised against the oracle
+    only): get_component_properties <id>, find_component_id_by_descriptor <hex>
     domain <i> <op> <args…>              -> <0|1> <0|1>   arguments inside `Call.InRange`, instance inside `BmcState.Wf`
                                             (executable checks of Model/Api/Domain.lean, proved sound in Lemmas/ApiDomain.lean)
     modelreq <variant> <op> <args…>      -> <netfn> <lun> <cmd> <hex> | <error tag>  the request the model puts on the wire
@@ -69,7 +74,8 @@ def genChassis : Gen Chassis := do
 
 def genSensor : Gen Sensor := do
   let s1 ← rndOpt rndByte
-  let s2 ← rndOpt rndByte
+  -- byte 5 [6:0]: states 14..8 (bit 7 is the reserved bit every conforming BMC returns as 1)
+  let s2 ← rndOpt (do if (← rnd 4) == 0 then pick [0, 1, 0x40, 0x7f, 0x7e, 2] else rnd 128)
   pure { reading := ← rndByte, eventMsgEnabled := ← rndBool, scanningEnabled := ← rndBool,
          unavailable := (← rnd 4) == 0, states1 := s1, states2 := if s1.isSome then s2 else none,
          readable := ← pick [0x3f, 0, 0x1b, 0x24, 0x01, 0x20, 0x15], thresholds := ← rndBytes 6 }
@@ -88,19 +94,47 @@ def genLed : Gen Led := do
 def genFan : Gen Fan := do
   let lv ← rndOpt (rnd 16)
   let le ← rndOpt (rnd 2)
+  -- both revisions of the fan tray: R3.0 (takes the optional fourth byte of Set Fan Level, reports the local control
+  -- enable state) and R1.0/R2.0 (three request bytes, no enable state)
+  let r3 ← rndBool
   pure { minLevel := ← rnd 4, maxLevel := 10 + (← rnd 20), normalLevel := ← rnd 10, localSupported := ← rndBool,
          overrideLevel := ← pick [0, 1, 5, 0xfe, 0xff], localLevel := lv,
-         localEnabled := if lv.isSome then le else none }
+         localEnabled := if lv.isSome && r3 then le else none, r3 := r3 }
 
 def genPort : Gen Port := do
-  pure { hasLink := (← rnd 5) != 0, flags := ← rnd 16, linkType := ← rndByte, ext := ← rnd 16,
+  -- link types: PICMG 3.x (01h..05h, with a signalling class in the upper nibble), OEM GUID (F0h..FEh), any byte
+  let lt ← match ← rnd 4 with
+    | 0 => pick [1, 2, 3, 4, 5, 0x32, 0x12]
+    | 1 => pick [0xf0, 0xf1, 0xf2, 0xf3, 0xfe, 0xff]
+    | _ => rndByte
+  pure { hasLink := (← rnd 5) != 0, flags := ← rnd 16, linkType := lt, ext := ← rnd 16,
          grouping := ← rndByte, state := ← rnd 2 }
 
 def genPower : Gen PowerLevel := do
   pure { dynamic := ← rndBool, level := ← rnd 32, delay := ← rndByte, multiplier := ← rndByte,
          draw := ← rndBytes (← rnd 21) }
 
-def genHpm : Gen Hpm := do
+/-- component descriptions: printable ASCII (what HPM.1 asks for) with the backslash sequences a Python codec could
+take for escapes, and any non-NUL bytes; pool shared with the harness (`DESCR_POOL` of harness/props/c07.py) -/
+def descrPool : List (List Nat) :=
+  [[73, 80, 77, 67], [102, 119, 92, 117, 112, 100, 97, 116, 101], [65, 92, 117, 48, 48, 52, 50, 67], [65, 66, 67],
+   [92, 85, 48, 48, 48, 48, 48, 48, 52, 49], [92, 92, 117, 48, 48, 52, 49], [98, 111, 111, 116, 92], [92, 117, 48, 48, 48, 48, 97],
+   [92, 120, 52, 49], [92, 117, 100, 56, 48, 48], [92, 85, 48, 48, 49, 49, 48, 48, 48, 48], [70, 80, 71, 65, 32, 35, 49]]
+
+def genDescr : Gen (List Nat) := do
+  match ← rnd 4 with
+  | 0 => (List.range (← rnd 13)).mapM fun _ => do pure (1 + (← rnd 255))
+  | 1 =>   -- a backslash somewhere in printable text
+    let n ← rnd 12
+    let cs ← (List.range n).mapM fun _ => do
+      if (← rnd 4) == 0 then pick [92, 117, 85, 48, 52, 102] else (do pure (0x20 + (← rnd 0x5f)))
+    pure cs
+  | _ => pick descrPool
+
+def genVersion : Gen (List Nat) := do
+  pure [← rnd 128, ← pick [0, 0x01, 0x10, 0x99, 0x42], ← rndByte, ← rndByte, ← rndByte, ← rndByte]
+
+def genHpm0 : Gen Hpm := do
   pure { version := ← pick [0, 1], capabilities := ← rndByte, timeouts := ← rndBytes 4, components := ← rndByte,
          cmdInProgress := ← pick [0, 0x31, 0x32, 0x33, 0x35], lastCc := ← pick [0, 0x80, 0x81, 0xd5, 0xff],
          estimate := ← rndOpt (rnd 101), selftest1 := ← pick [0x55, 0x56, 0x57, 0x58, 0x60],
@@ -119,6 +153,16 @@ def genMap {α} (keys : List Nat) (g : Gen α) (skip : Nat := 3) : Gen (Map α) 
   for k in keys do
     if (← rnd skip) != 0 then m := m.set k (← g)
   pure m
+
+def genHpm : Gen Hpm := do
+  let ids := [0, 1, 2, 3, 4, 5, 6, 7]
+  let descr ← genMap ids genDescr 4
+  let general ← genMap ids rndByte 3
+  let ver ← genMap ids genVersion 3
+  let rb ← genMap ids genVersion 2
+  let df ← genMap ids genVersion 2
+  let h ← genHpm0
+  pure { h with compDescr := descr, compGeneral := general, compVersion := ver, compRollback := rb, compDeferred := df }
 
 def validBootDevs : List Nat := [0, 1, 2, 3, 4, 5, 6, 7, 8, 9, 11, 15]
 
@@ -155,7 +199,7 @@ def genLanRev : Gen (Map Nat) := do
 /-- a sensor whose update is in progress: unavailable flag set, the state bytes (stale) are not zero -/
 def genSensorUnavailable : Gen Sensor := do
   let x ← genSensor
-  let s2 ← rndOpt (do pure (1 + (← rnd 255)))
+  let s2 ← rndOpt (do pure (1 + (← rnd 127)))
   pure { x with unavailable := true, states1 := some (1 + (← rnd 255)), states2 := s2 }
 
 def genAccess : Gen UserAccess := do
@@ -228,7 +272,10 @@ def normState (s : BmcState) : BmcState :=
            lan := s.lan.norm, lanRev := s.lanRev.norm, userNames := s.userNames.norm, userPasswords := s.userPasswords.norm,
            userEnabled := s.userEnabled.norm, userAccess := s.userAccess.norm, sensors := s.sensors.norm,
            leds := s.leds.norm, fans := s.fans.norm, ports := s.ports.norm, power := s.power.norm,
-           frus := s.frus.norm, sigClass := s.sigClass.norm, powerChannels := s.powerChannels.norm }
+           frus := s.frus.norm, sigClass := s.sigClass.norm, powerChannels := s.powerChannels.norm,
+           hpm := { s.hpm with compDescr := s.hpm.compDescr.norm, compGeneral := s.hpm.compGeneral.norm,
+                               compVersion := s.hpm.compVersion.norm, compRollback := s.hpm.compRollback.norm,
+                               compDeferred := s.hpm.compDeferred.norm } }
 
 def oneLine (s : String) : String := " ".intercalate ((s.splitOn "\n").map fun x => x.trimAscii.toString)
 def dumpState (s : BmcState) : String := oneLine (reprStr (normState s))
@@ -264,6 +311,10 @@ def showDur : Option Nat → String
   | none => "-"
 def showLedFn (f : LedFnView) : String :=
   (match f.kind with | 0 => "off" | 1 => "blink" | 2 => "on" | k => s!"fn{k}") ++ s!" {showDur f.offDur} {showDur f.onDur}"
+
+/-- a string: hex of its characters (one byte each); characters above FFh as code points -/
+def showText (cs : List Nat) : String :=
+  if cs.all (· < 256) then toHex cs else "cp:" ++ ".".intercalate (cs.map toString)
 
 def showResult : Result → String
   | .unit => "None"
@@ -303,12 +354,13 @@ def showResult : Result → String
       ++ " lampdur=" ++ (match x.lampDur with | some d => toString (d * 100) | none => "None")
   | .port l =>
     match l with
-    | some p => s!"ch={p.channel} if={p.iface} flags={p.flags} type={p.linkType} ext={p.ext} grp={p.grouping} state={p.state}"
+    | some p => s!"ch={p.channel} if={p.iface} flags={p.flags} type={p.linkType} sig={p.sigClass} ext={p.ext} grp={p.grouping} state={p.state}"
     | none => "nolink"
   | .pmGlobal g => s!"role={g % 2} mgmt={g / 2 % 2} payload={g / 4 % 2} fault={g / 8 % 2}"
   | .hpmStatus c cc => s!"cmd={c} cc={cc}"
   | .hpmCaps v comps => s!"ver={v} comps=" ++ natList ((List.range 8).filter fun i => bitOf comps i)
   | .rollback st e => s!"status={st} pct={so e}"
+  | .text cs => showText cs
   | .error cc => s!"cc:{cc}"
 
 /-! ### parsing calls -/
@@ -392,6 +444,11 @@ def parseCall (op : String) (a : List String) : Option Call :=
   | "set_port_state", [i, c, fl, t, e, g, st] => do
     some (.setPortState (← pNat i) (← pNat c)
       { hasLink := true, flags := ← pNat fl, linkType := ← pNat t, ext := ← pNat e, grouping := ← pNat g, state := ← pNat st })
+  | "set_port_state", [i, c, fl, t, e, g, st, w] => do
+    -- w = 1: the whole link type in link_descr.type (TYPE_OEMx), sig_class 0; w = 0: type / sig_class nibbles
+    let p : Port := { hasLink := true, flags := ← pNat fl, linkType := ← pNat t, ext := ← pNat e, grouping := ← pNat g, state := ← pNat st }
+    if (← pBool w) then some (.setPortStateType8 (← pNat i) (← pNat c) p) else some (.setPortState (← pNat i) (← pNat c) p)
+  | "get_component_property", [id] => do some (.getComponentDescription (← pNat id))   -- selector: PROPERTY_DESCRIPTION_STRING
   | "get_port_state", [c, i] => do some (.getPortState (← pNat c) (← pNat i))
   | "get_pm_global_status", [] => some .getPmGlobalStatus
   | "get_power_channel_status", [s] => do some (.getPowerChannelStatus (← pNat s))
@@ -414,6 +471,19 @@ def parseCall (op : String) (a : List String) : Option Call :=
       | some i, [f] => (pNat f).map (.fruControlNamed i)
       | _, _ => none
     else none
+
+/-- composite HPM queries (several exchanges in the library): judged against the oracle only -/
+def specExtra (op : String) (a : List String) (s : BmcState) : Option String :=
+  match op, a with
+  | "get_component_properties", [id] => do
+    let id ← pNat id
+    if has_component id s then
+      let (kinds, d) := component_properties id s
+      some s!"props={natList kinds} descr={showText d}"
+    else some s!"cc:{ccHpmInvalidComponent}"
+  | "find_component_id_by_descriptor", [h] => do
+    some (so (find_component (← ofHex h) s))
+  | _, _ => none
 
 /-! ### the loop -/
 
@@ -452,6 +522,10 @@ def step (st : Insts) (line : String) : Insts × String :=
     match (pNat i).bind (st[·]?) with
     | some s => (st, digest s)
     | none => (st, "bad-op")
+  | ["fanrev", i, fru] =>
+    match (pNat i).bind (st[·]?), pNat fru with
+    | some s, some fru => (st, if (get_fan fru s).r3 then "R3.0" else "R1.0/R2.0")
+    | _, _ => (st, "bad-op")
   | ["dump", i] =>
     match (pNat i).bind (st[·]?) with
     | some s => (st, dumpState s)
@@ -459,6 +533,10 @@ def step (st : Insts) (line : String) : Insts × String :=
   | "spec" :: i :: op :: args =>
     match (pNat i).bind (st[·]?), parseCall op args with
     | some s, some c => let (s', r) := run c s; (st, digest s' ++ " " ++ showResult r)
+    | some s, none =>
+      match specExtra op args s with
+      | some r => (st, digest s ++ " " ++ r)
+      | none => (st, "bad-op")
     | _, _ => (st, "bad-op")
   | "specdump" :: i :: op :: args =>
     match (pNat i).bind (st[·]?), parseCall op args with
